@@ -271,6 +271,29 @@ Section Run.
         end
     end.
 
+  (** Variant with an OS write error (REVIEW_A 14).  [try_stores] above is the instance in which every write succeeds: the
+      whole-run theorems are about it.  RequirementsTxtWriter / SetupCfgWriter open the manifest with mode "w" (which truncates
+      it) inside `try: ... except Exception: return None`: when the write then fails ([wok st = false]) the manifest is left
+      EMPTY, no change set is returned and the loop goes on to the next store.  [catches] says which writers swallow the
+      error (Tables.writer_catch_table); for the others the exception escapes and aborts the run (not modelled here). *)
+  Fixpoint try_stores_os (catches : skind -> bool) (wok : store -> bool) (ds : list dep) (fs : fsys) (stores : list store)
+    : list store * fsys * option changeset :=
+    match stores with
+    | [] => ([], fs, None)
+    | st :: rest =>
+        match attempt ds fs st with
+        | None => let r := try_stores_os catches wok ds fs rest in (store_added st ds :: fst (fst r), snd (fst r), snd r)
+        | Some (b', d, chs) =>
+            if writer_guarded tb (st_kind st) && dry_run cfg then
+              (store_added st ds :: rest, fs, Some {| cs_path := st_path st; cs_diff := d; cs_changes := chs |})
+            else if wok st || negb (catches (st_kind st)) then
+              (store_added st ds :: rest, fwrite fs (st_path st) b', Some {| cs_path := st_path st; cs_diff := d; cs_changes := chs |})
+            else
+              let r := try_stores_os catches wok ds (fwrite fs (st_path st) []) rest in
+              (store_added st ds :: fst (fst r), snd (fst r), snd r)
+        end
+    end.
+
   Definition process_dependencies (id : str) (s : state) : state :=
     match dgetl id (s_deps s) with
     | [] => s
